@@ -20,7 +20,7 @@ LEVEL_TEXT = ('Lean 4 theorems, for all shapes/offsets/data: extent queries = se
               '(boundary_is_bbox, hypothesis hM; boundary_is_bbox_general without it), wholly negative ones included, independent of the '
               'order of the fields and covariant under translation (boundary_order_independent, boundary_translate); public merge = sum of the two embeddings, refused iff overlap is enforced and no pixel is '
               'shared; public overlap = common pixel (2 fields) / reduce leaves one field carrying the total (otherwise) — their '
-              'branch tests, the dispatch of __mul__, the merge test of reduce and the step of _disjoint are generated from the '
+              'branch tests, the dispatch of __mul__, the whole of _mul_broadcast (mul_broadcast_spec: generated = the broadcast step of the model, inherited offsets included), the index flow of _mul_array (mul_array_spec, mul_via_gen), the extent and default offset set by Field.__init__ (field_init_extent_spec, field_init_default_spec), the merge test of reduce and the step of _disjoint are generated from the '
               'source (Gen.FieldDispatch) and consumed by the models; insert adds '
               'exactly the part of the embedding inside the target (insert_emb; on the plane: insert_emb_plane for post 0 = 0); the NumPy slice pairs of product and insert are in range and of '
               'equal shape. Index arithmetic is regenerated from extent.py/field.py on every run; the NumPy array plumbing is a hand '
@@ -35,7 +35,7 @@ LEVEL_NOTE = ('Trusted: Lean kernel, py2lean subset semantics, NumPy slicing/bro
               'Field(data=[]) whose cached extent is (0,0,0,0) — the model treats it as the zero field; it is a sentinel that the only caller '
               '(Plane.multiply) drops, and the composition cases (product -> mul/merge/reduce/insert) drop it the same way.')
 TECHNIQUE = 'Lean 4 proof (omega/induction) over translator-regenerated index kernel + hand model with differential correspondence'
-GEN = ['Extent', 'FieldIdx', 'FieldMerge', 'FieldDispatch', 'FieldAccum']
+GEN = ['Extent', 'FieldIdx', 'FieldMerge', 'FieldDispatch', 'FieldAccum', 'FieldBroadcast', 'FieldMulArray', 'FieldInit']
 OPS = ['C06']
 RULE = ('cases: extent pairs, bounding boxes (boundary) of 1..5 fields incl. wholly negative, field products (array/array, '
         'scalar/array, scalar/scalar, 0-d), merges (_merge and public merge with both enforce_overlap values, equal/different '
@@ -50,7 +50,7 @@ RULE = ('cases: extent pairs, bounding boxes (boundary) of 1..5 fields incl. who
         'exactly one pixel row/column, abutting tiles, one-pixel-wide bars), and 1-D-like products/inserts of 65..500 (search: 2600) samples. thorough adds two '
         'exhaustive enumerations: every insert with field shape <= 3x3, offset in [-4,4]^2, target <= 4x4 (11 664 cases), and every '
         'extent pair a = shape <= 5x5 at the origin (plus four shifted copies), b = shape <= 5x5 at offset in [-6,6]^2; the container '
-        'type of every offset (list / tuple / ndarray / list of np.int64) is drawn for half of the fields; compositions include '
+        'type of every offset (list / tuple / ndarray / list of np.int64) is drawn for half of the fields; half of the fields at offset [0, 0] are built as Field(data) with no offset argument (the default of __init__), and every extent case also builds a Field of that shape/offset (without the offset argument when it is [0, 0] and its first row is even) and judges its cached extent; compositions include '
         'products that overlap in exactly one pixel followed by a one-element factor on or next to that pixel; corpus: D20 '
         'witnesses (fields wholly outside), the 0-d merge witness fixed by 5cccd0c, spanning-first-field collections, run first. '
         'distinct = canonical (kind, shapes, offsets) signature; non-trivial = extents overlap partially / clipping on some side / '
@@ -90,7 +90,7 @@ ASSUMPTIONS = ['merge/reduce never raise (mergeZ_total, reduce_defined, reduceZ_
                'the tests generated into Gen.FieldDispatch are consumed by the models: Fld.mul (size test, offset comparison), disjoint '
                'and disjointZ (step constants), GroupZ.out / overlapL / mergePublic (thresholds); closed forms: Fld.mul_closed, '
                'disjoint_succ_some, GroupZ.out_eq, overlapL_two/many, mergePublic_eq; insertArr / insertArrMode evaluate the generated '
-               'accumulation terms of insert (Gen.FieldAccum; insertTerm_eq, insert_accum_spec, insert_mode_eq). The container type of an offset (list / tuple / '
+               'accumulation terms of insert (Gen.FieldAccum; insertTerm_eq, insert_accum_spec, insert_mode_eq). _mul_broadcast is regenerated whole (Gen.FieldBroadcast.mulBroadcast: shape test, both size tests, broadcast targets, inherited offsets; the arrays enter through .shape/.size and np.broadcast_to as a flag) and proved equal to the broadcast step of Fld.mul for every pair not both one-element (mul_broadcast_spec, mul_via_gen_broadcast); 2-D shapes only — the 0-d operand of _mul_broadcast stays with the correspondence (ZFld.mul). Field._mul_array after that call is regenerated too (Gen.FieldMulArray.mulArrayIdx: both array_extent calls, the intersect test, intersection_slices, intersection_shift, calling Gen.Extent) and proved to be the index flow of Fld.mulArr for all fields (mul_array_spec; end to end on generated definitions: mul_via_gen); its array product `self_data[self_slice] * other_data[other_slice]`, the empty result and the argument order of the _mul_broadcast call are matched textually by the translator hook. Field.__init__ is regenerated (Gen.FieldInit: the offset default [0, 0] and the cached extent = array_extent(self.shape, self.offset); the data / pixelscale / tilt assignments and the property Field.shape are matched textually): the cached extent is Fld.extent and the pixel set of the data (field_init_extent_spec), the default is the origin-centred field (field_init_default_spec). The container type of an offset (list / tuple / '
                'ndarray) enters the translation of _mul_scalar as a tag that np.array_equal ignores (mul_dispatch_spec); the model '
                'itself has integer offsets only, the harness draws the container types']
 
@@ -526,6 +526,9 @@ def _offset_as(off, ot):
 def _F(f, ps=None):
     import lentil
     from lentil.field import Field
+    if f.get('ot') == 'default':     # Field.__init__'s default: no offset argument at all (only drawn for fields at [0, 0])
+        assert list(f['off']) == [0, 0]
+        return Field(np_data(f), pixelscale=ps)
     return Field(np_data(f), pixelscale=ps, offset=_offset_as(f['off'], f.get('ot', 'list')))
 
 def _case_fields(c):
@@ -538,6 +541,7 @@ def _vary_offset_types(cases, rng):
     for c in cases:
         for f in _case_fields(c):
             if rng.integers(0, 2): f['ot'] = _OTYPES[int(rng.integers(0, len(_OTYPES)))]
+            if list(f['off']) == [0, 0] and rng.integers(0, 2): f['ot'] = 'default'    # built as Field(data): offset left to __init__'s default
     return cases
 
 def _snap(Fs):
@@ -595,7 +599,9 @@ def impl(c):
                     'shape': [int(x) for x in X.intersection_shape(a, b)],
                     'slices': [int(x) for s in (sl[0][0], sl[0][1], sl[1][0], sl[1][1]) for x in (s.start, s.stop)],
                     'shift': [int(x) for x in X.intersection_shift(a, b)], 'center_a': [int(x) for x in X.array_center(a)],
-                    'array_extent': [int(x) for x in X.array_extent(tuple(c['sa']), tuple(c['oa']))]}
+                    'array_extent': [int(x) for x in X.array_extent(tuple(c['sa']), tuple(c['oa']))],
+                    'field_extent': [int(x) for x in (LF.Field(np.zeros(tuple(c['sa']))) if list(c['oa']) == [0, 0] and c['a'][0] % 2 == 0
+                                                      else LF.Field(np.zeros(tuple(c['sa'])), offset=list(c['oa']))).extent]}
         if k == 'mul':
             Fa, Fb = _F(c['a']), _F(c['b'])
             if c.get('tilt'):
@@ -735,6 +741,7 @@ def compare(c, io, mo):
             if io[key] != m[key]: return f'{key}: impl {io[key]} model {m[key]}'
         if io['shape'] != m['shape']: return f"shape: impl {io['shape']} model {m['shape']}"
         if io['array_extent'] != mo[1]['extent']: return f"array_extent: impl {io['array_extent']} model {mo[1]['extent']}"
+        if io['field_extent'] != mo[1]['extent']: return f"Field.extent: impl {io['field_extent']} model {mo[1]['extent']}"
         return None
     if k == 'boundary':
         return None if io['extent'] == m['extent'] else f"boundary: impl {io['extent']} model {m['extent']}"
@@ -884,6 +891,7 @@ def oracle(c, io):
         else:
             if io['shape'] != []: return f'disjoint extents but shape {io["shape"]}'
         if io['array_extent'] != list(ext_of(c['sa'], c['oa'])): return f'array_extent {io["array_extent"]}'
+        if io['field_extent'] != list(ext_of(c['sa'], c['oa'])): return f'the extent cached by Field.__init__ {io["field_extent"]} is not the pixel set of its data {list(ext_of(c["sa"], c["oa"]))}'
         ca = io['center_a']
         if list(ext_of((a[1] - a[0] + 1, a[3] - a[2] + 1), ca)) != a: return f'centre {ca} does not rebuild the extent'
         return None
